@@ -763,6 +763,40 @@ func vsDecode(t *vsT, b []byte) vsDecoded {
 	return d
 }
 
+// named twins of catalogue structs: the same encoded fields (same tags), with unexported fields declared before, between
+// and after them
+type vsTwinSA struct {
+	hidden0 uint64 //nolint:unused
+	F1      uint8
+	hidden1 bool //nolint:unused
+	F2      uint16
+	F3      uint32
+	hidden2 []byte //nolint:unused
+}
+
+type vsTwinSC struct {
+	hidden0 uint8 //nolint:unused
+	F1      uint8
+	F2      uint16 `scale:"2"`
+	hidden1 uint32 //nolint:unused
+	F3      uint32 `scale:"1"`
+}
+
+type vsTwinSB struct {
+	F1      uint8  `scale:"3"`
+	hidden0 string //nolint:unused
+	F2      []byte `scale:"1"`
+	F3      bool   `scale:"2"`
+	hidden1 uint16 //nolint:unused
+	F4      uint
+}
+
+var vsTwins = map[string]reflect.Type{
+	"struct{u8#-1,u16#-1,u32#-1}":            reflect.TypeOf(vsTwinSA{}),
+	"struct{u8#-1,u16#2,u32#1}":              reflect.TypeOf(vsTwinSC{}),
+	"struct{u8#3,bytes#1,bool#2,compact#-1}": reflect.TypeOf(vsTwinSB{}),
+}
+
 func vsRunRT(res *vResult, bi, si int, c *vsCase, raw json.RawMessage) {
 	t := c.O.T
 	res.Case("rt", t.String()+"|"+string(c.O.V))
@@ -805,6 +839,32 @@ func vsRunRT(res *vResult, bi, si int, c *vsCase, raw json.RawMessage) {
 			}
 			res.Fail(bi, si, "rt", "Marshal", vHex(exp), vHex(got), sig, raw)
 			break
+		}
+	}
+	// --- the same bytes into a NAMED Go type with the same encoded fields plus unexported ones in between (named struct
+	// types go through the package's field-order cache; unexported fields are not part of the encoding): decode twice,
+	// re-encode, both times the canonical bytes
+	if twin, ok := vsTwins[t.String()]; ok {
+		owner := vEnvStr("VERIF_PROP", "C11")
+		if owner != "C12" {
+			owner = "C11"
+		}
+		for round := 1; round <= 2; round++ {
+			x := reflect.New(twin)
+			var uerr, merr error
+			var re []byte
+			pm := vTry(func() {
+				uerr = Unmarshal(exp, x.Interface())
+				if uerr == nil {
+					re, merr = Marshal(x.Elem().Interface())
+				}
+			})
+			res.Cmp()
+			if pm != "" || uerr != nil || merr != nil || !bytes.Equal(re, exp) {
+				res.Fail(bi, si, "rt", fmt.Sprintf("named struct twin, decode #%d", round), vHex(exp), fmt.Sprintf("%s decode-err=%v encode-err=%v %s", vHex(re), uerr, merr, pm),
+					owner+"/named-struct-with-unexported-fields/round-trip", raw)
+				break
+			}
 		}
 	}
 	// --- decode the canonical encoding
@@ -995,9 +1055,43 @@ func vsWideLeaves(t *vsT) string {
 	return "has-multi-byte-leaves"
 }
 
+// vsNamedProbe: fixed canonical encodings decoded repeatedly into the named twins (the decoded value's canonical encoding is
+// exactly the input, on the first and on every later decode of the type)
+func vsNamedProbe(res *vResult, owner string) {
+	probes := []struct {
+		ty reflect.Type
+		b  []byte
+	}{
+		{reflect.TypeOf(vsTwinSA{}), []byte{0x01, 0x03, 0x02, 0x07, 0x06, 0x05, 0x04}},
+		{reflect.TypeOf(vsTwinSC{}), []byte{0x07, 0x06, 0x05, 0x04, 0x03, 0x02, 0x01}},
+		{reflect.TypeOf(vsTwinSB{}), []byte{0x08, 0xaa, 0xbb, 0x01, 0x09, 0x2c}},
+	}
+	for _, p := range probes {
+		for round := 1; round <= 3; round++ {
+			x := reflect.New(p.ty)
+			var uerr, merr error
+			var re []byte
+			pm := vTry(func() {
+				uerr = Unmarshal(p.b, x.Interface())
+				if uerr == nil {
+					re, merr = Marshal(x.Elem().Interface())
+				}
+			})
+			res.Case("named-probe", fmt.Sprintf("%s|%d", p.ty.Name(), round))
+			res.Cmp()
+			if pm != "" || uerr != nil || merr != nil || !bytes.Equal(re, p.b) {
+				res.Fail(-1, round, "dec", fmt.Sprintf("%s, decode #%d", p.ty.Name(), round), vHex(p.b), fmt.Sprintf("%s decode-err=%v encode-err=%v %s", vHex(re), uerr, merr, pm),
+					owner+"/named-struct-with-unexported-fields/round-trip", map[string]any{"type": p.ty.Name(), "bytes": vHex(p.b)})
+				break
+			}
+		}
+	}
+}
+
 func vsRun(t *testing.T, prop string) {
 	res := vNewResult(prop)
 	defer res.Write(t)
+	vsNamedProbe(res, prop)
 	behs := vLoad(t, vIn(t, "behaviours.txt"))
 	res.Behaviours = len(behs)
 	seen := map[string]*vsT{}
